@@ -57,7 +57,7 @@ func (c20) Run(t *tape.Tape, tier Tier) *Result {
 	cl := c20Cluster
 	cl.Reset()
 	world.Full().Install()
-	cfg := gen.Config{Alpha: gen.Regular, Swarm: true, MaxDepth: 5, MaxNodes: 10}
+	cfg := gen.Config{Alpha: gen.Regular, Swarm: true, MaxDepth: 5, MaxNodes: 10, LongStrings: true, Boost: gen.GGrpc, BoostFactor: 3}
 	if tier == Thorough {
 		cfg.MaxDepth, cfg.MaxNodes = 7, 22
 	}
@@ -184,8 +184,14 @@ func (c20) Run(t *tape.Tape, tier Tier) *Result {
 					res.add(Violation{Prop: "C20", Oracle: "equals-direct-transfer:wire", Culprit: wireDiffCulprit(a, b), Expected: fmt.Sprint(len(a), " bytes"), Observed: fmt.Sprint(len(b), " bytes, differs"), Where: where})
 				}
 			}
-			// the code callers see: on the reconstituted error, and as a plain gRPC client
-			wantCode := extgrpc.GetGrpcCode(h.err)
+			// the code callers see: on the reconstituted error, and as a plain
+			// gRPC client. The expectation comes from the spec (the outermost
+			// WrapWithGrpcCode-like constructor on the single-cause chain),
+			// not from the library's own accessor.
+			wantCode := specGrpcCode(h.spec)
+			if lib := extgrpc.GetGrpcCode(h.err); lib != wantCode {
+				res.add(Violation{Prop: "C20", Oracle: "attached-code-at-handler", Culprit: "code:" + wantCode.String(), Expected: wantCode.String(), Observed: lib.String(), Where: where})
+			}
 			if got := extgrpc.GetGrpcCode(r.err); got != wantCode {
 				res.add(Violation{Prop: "C20", Oracle: "status-code-on-delivered-error", Culprit: "code:" + wantCode.String(), Expected: wantCode.String(), Observed: got.String(), Where: where})
 			}
@@ -204,6 +210,23 @@ func (c20) Run(t *tape.Tape, tier Tier) *Result {
 	res.Nontrivial = transferred
 	res.Key = fmt.Sprintf("%s|%d|%v", shapes, nclients, assign)
 	return res
+}
+
+// specGrpcCode is the code attached with WrapWithGrpcCode (or the
+// grpc/status helpers built on it) to the outermost such layer of the
+// single-cause chain; Unknown when there is none.
+func specGrpcCode(n *gen.Node) codes.Code {
+	for n != nil {
+		switch n.K {
+		case gen.WGrpcCode, gen.WStatusWrap, gen.LStatusErr:
+			return codes.Code(1 + n.N[0]%16)
+		}
+		if gen.Info(n.K).Arity != gen.Wrap || len(n.Kids) != 1 {
+			return codes.Unknown
+		}
+		n = n.Kids[0]
+	}
+	return codes.Unknown
 }
 
 func isStatus(err error) bool {
